@@ -12,7 +12,7 @@ from sim.sched import HarnessError, InvalidCase, Violation
 
 FORMATS = ("list", "dense", "csr", "csc", "coo")
 FILLS = ("upper", "symmetric", "lower")
-DTYPES = ("int", "bool")
+DTYPES = ("int", "int", "bool", "int8", "uint8")
 MSO_CHOICES = ([0.5, 1.0], [0.5, 1.0], [0.0, 0.0], [1.0, 1.0], [1.5, 0.0], [0.0, 2.0], [-1.0, 0.5])
 
 
@@ -142,6 +142,8 @@ def materialize(g, rep):
             A[hi, lo] = 1
     if rep["dtype"] == "bool":
         A = A.astype(bool)
+    elif rep["dtype"] in ("int8", "uint8"):
+        A = A.astype(rep["dtype"])
     f = rep["fmt"]
     if f == "list":
         return [[(bool(x) if rep["dtype"] == "bool" else int(x)) for x in row] for row in A]
